@@ -182,6 +182,9 @@ X86Step(P, s) ==
      IN IF op = "xor" /\ same THEN Next1([X86Write(s, i.a[1], ZeroV) EXCEPT !.flags = <<ZeroV, ZeroV>>])     \* zeroing idiom: any content
         ELSE IF IsBadOrEx(x) THEN BadToFail(s, x) ELSE IF IsBadOrEx(y) THEN BadToFail(s, y)
         ELSE IF IsJunk(x) \/ IsJunk(y) THEN Fail(s, "undef", op \o " on an undefined value")
+        \* `and rsp, -16`: aligning the stack pointer downwards (the entry stack pointer is 8 modulo 16: the caller's call pushed 8 bytes)
+        ELSE IF op = "and" /\ x.t = "stk" /\ y = IntV(FromInt(-16)) THEN
+             Next1(ClearFlags(X86Write(s, i.a[1], StkV(x.o - ((x.o + 8) % 16)))))
         ELSE IF op = "test" /\ same THEN Next1([s EXCEPT !.flags = <<x, ZeroV>>])                               \* also for a pointer: null test
         ELSE IF op \in {"and", "or"} /\ same THEN Next1([s EXCEPT !.flags = <<x, ZeroV>>])
         ELSE IF x.t # "int" \/ y.t # "int" THEN Fail(s, "value", op \o " on non-integers")
